@@ -30,3 +30,13 @@ def declare(check, na):
     check('C10', 'exploration', SQL_TECH + ' (free-core conservation)',
           'instances_free_cores_mcpu is recomputed as cores minus open attempts after every commit, for pool and job-private instances under duplicate/stale reports, unschedule and deactivation',
           SQL_NOTE)
+
+    check('C07', 'exploration', SQL_TECH + '; before/after snapshots around cancels and submissions; probe of the is_job_cancelled SQL predicate for every live job',
+          'after cancelling arbitrary groups in any order: cancelled non-always-run jobs never start, submissions under cancelled groups are rejected without side effects, repeated cancels change nothing, jobs outside the subtree keep their rows and the SQL predicate used by schedule/started/creating answers correctly (and without error) for every job',
+          SQL_NOTE)
+    check('C08', 'exploration', 'adversarial schema-valid submissions through the three real submission handlers + independent well-formedness predicate + bounded-progress drain',
+          'ill-formed dependency / job-id submissions must be rejected without leaving jobs behind; every accepted and committed submission is driven to completion by the real scheduler and completion path within #jobs+3 rounds',
+          SQL_NOTE + '; bounded progress instead of unbounded liveness')
+    check('C41', 'exploration', SQL_TECH + ' restricted to jobs of uncommitted updates (row-as-inserted comparison) + committed-only recounts',
+          'every job of an uncommitted update is compared with its inserted row after every commit; counters, tallies and completion state are recounted over committed jobs only while late / never / out-of-order commits happen',
+          SQL_NOTE)
